@@ -4,7 +4,10 @@
 # (VERIF_REPO), remove the worktree.
 P=$1; D=$2; SEEDS=${3:-"1 5"}; TIER=${4:-quick}
 W=/tmp/tryseed.$$.$RANDOM
-git -C /repo worktree add -q --detach $W HEAD || exit 2
+for i in 1 2 3 4 5; do   # concurrent `git worktree add` calls can collide on the repository lock
+  git -C /repo worktree add -q --detach $W HEAD 2>/dev/null && break
+  sleep $((RANDOM % 3 + 1)); [ $i = 5 ] && { echo "$P $D: cannot create worktree"; exit 2; }
+done
 trap 'git -C /repo worktree remove --force $W >/dev/null 2>&1' EXIT
 cd $W && git apply --check "$D/patch.diff" 2>/dev/null || { echo "$P $D: PATCH DOES NOT APPLY"; exit 2; }
 git apply "$D/patch.diff"
